@@ -107,8 +107,8 @@ PROPS = {
     'C01': {
         'engines': [{'name': 'world', 'quick_args': ['-n', '60'], 'thorough_args': ['-n', '1200']},
                     {'name': 'worldkf1', 'quick_args': ['-n', '25'], 'thorough_args': ['-n', '300']}],
-        # agreement rests on "a correct member endorses one hash per view" (Own.E_unique, C10): an equivocating correct member is reported here too
-        'also_report': ('C10',),
+        # agreement rests on "a correct member endorses one hash per view" (Own.E_unique, C10) and on "a vote carries the voter's lock" (C09): both kinds of finding are reported here too
+        'also_report': ('C10', 'C09'),
         'corr_modules': ['Term'],
         'trusted_base': ['theorems in coq/props/C01.v about coq/theories/World.v (global run model over Term.v; proofs in Own.v, World.v, AbsSafety.v) and WorldKF1.v'],
         'assumptions': COMMON_ASSUME + ['unforgeability: a signature that verifies under a correct member\'s key was made by that member over exactly those header bytes (auth_msg); the harness key manager (per-member secret MAC) has this property',
